@@ -183,13 +183,13 @@ package decorator
 //@ loop 1 invariant registered: has(r.Ast.Nodes, $arg_n) && typeof(r.Ast.Nodes[$arg_n]) == type(*ast.Package) && !wasAllocated(ref(r.Ast.Nodes[$arg_n]))
 //@ loop 1 invariant imports_extras_off: !r.Extras ==> (forall k string :: has(cast(r.Ast.Nodes[$arg_n], type(*ast.Package)).Imports, k) ==> cast(r.Ast.Nodes[$arg_n], type(*ast.Package)).Imports[k] == nil)
 //@ loop 1 invariant scope_kept: r.Extras ==> (cast($arg_n, type(*dst.Package)).Scope == nil ? cast(r.Ast.Nodes[$arg_n], type(*ast.Package)).Scope == nil : has(r.Ast.Scopes, cast($arg_n, type(*dst.Package)).Scope) && cast(r.Ast.Nodes[$arg_n], type(*ast.Package)).Scope == r.Ast.Scopes[cast($arg_n, type(*dst.Package)).Scope])
-//@ loop 1 invariant imports_so_far: forall k string :: has(cast(r.Ast.Nodes[$arg_n], type(*ast.Package)).Imports, k) == $visited[k]
+//@ loop 1 invariant imports_so_far: r.Extras ==> (forall k string :: has(cast(r.Ast.Nodes[$arg_n], type(*ast.Package)).Imports, k) == $visited[k])
 //@ loop 1 invariant imports_visited: forall k string :: $visited[k] ==> has(cast($arg_n, type(*dst.Package)).Imports, k)
 //@ loop 1 invariant imports_members: r.Extras ==> (forall k string :: has(cast(r.Ast.Nodes[$arg_n], type(*ast.Package)).Imports, k) && cast($arg_n, type(*dst.Package)).Imports[k] != nil ==> has(r.Ast.Objects, cast($arg_n, type(*dst.Package)).Imports[k]) && cast(r.Ast.Nodes[$arg_n], type(*ast.Package)).Imports[k] == r.Ast.Objects[cast($arg_n, type(*dst.Package)).Imports[k]])
 //@ loop 2 invariant registered: has(r.Ast.Nodes, $arg_n) && typeof(r.Ast.Nodes[$arg_n]) == type(*ast.Package) && !wasAllocated(ref(r.Ast.Nodes[$arg_n]))
 //@ loop 2 invariant imports_extras_off: !r.Extras ==> (forall k string :: has(cast(r.Ast.Nodes[$arg_n], type(*ast.Package)).Imports, k) ==> cast(r.Ast.Nodes[$arg_n], type(*ast.Package)).Imports[k] == nil)
 //@ loop 2 invariant scope_kept: r.Extras ==> (cast($arg_n, type(*dst.Package)).Scope == nil ? cast(r.Ast.Nodes[$arg_n], type(*ast.Package)).Scope == nil : has(r.Ast.Scopes, cast($arg_n, type(*dst.Package)).Scope) && cast(r.Ast.Nodes[$arg_n], type(*ast.Package)).Scope == r.Ast.Scopes[cast($arg_n, type(*dst.Package)).Scope])
-//@ loop 2 invariant imports_names: forall k string :: has(cast(r.Ast.Nodes[$arg_n], type(*ast.Package)).Imports, k) == has(cast($arg_n, type(*dst.Package)).Imports, k)
+//@ loop 2 invariant imports_names: r.Extras ==> (forall k string :: has(cast(r.Ast.Nodes[$arg_n], type(*ast.Package)).Imports, k) == has(cast($arg_n, type(*dst.Package)).Imports, k))
 //@ loop 2 invariant imports_members: r.Extras ==> (forall k string :: has(cast(r.Ast.Nodes[$arg_n], type(*ast.Package)).Imports, k) && cast($arg_n, type(*dst.Package)).Imports[k] != nil ==> has(r.Ast.Objects, cast($arg_n, type(*dst.Package)).Imports[k]) && cast(r.Ast.Nodes[$arg_n], type(*ast.Package)).Imports[k] == r.Ast.Objects[cast($arg_n, type(*dst.Package)).Imports[k]])
 //@ loop 1 invariant inv: r.inv()
 //@ loop 1 invariant maps: r.mapsInv()
